@@ -39,7 +39,7 @@ func expect(exchange string, etype int, p refkdc.Perturb, addrsRequested bool) s
 	switch p.Kind {
 	case "authtime-year":
 		return "reject" // centuries away from the client's clock (the simulated clock starts in 2000)
-	case "nonce", "cname", "cname-extra", "cname-regroup", "crealm", "other-key", "enc-flip", "enc-trunc", "enc-extend":
+	case "nonce", "cname", "cname-extra", "cname-regroup", "crealm", "other-key", "key-of-earlier-s2kparams", "enc-flip", "enc-trunc", "enc-extend":
 		return "reject"
 	case "sealed-sname", "sealed-srealm":
 		if as {
@@ -147,7 +147,11 @@ func run(tapeJSON json.RawMessage, res *core.Result) {
 	if tp.Cred == "keytab" {
 		sim.AddKeyUser(user, 4)
 	} else {
-		p := sim.AddPasswordUser(user, password, tp.Salt, tp.Iter)
+		it := tp.Iter
+		if tp.PriorIter != 0 {
+			it = tp.PriorIter
+		}
+		p := sim.AddPasswordUser(user, password, tp.Salt, it)
 		p.Precompute("SIM.TEST", []int{tp.Etype})
 	}
 	net := world.NewNet()
@@ -326,6 +330,20 @@ func run(tapeJSON json.RawMessage, res *core.Result) {
 			}
 			return e
 		}
+		if tp.PriorIter != 0 && tp.Cred == "password" {
+			// an earlier login of the same process, by another client object of the same user, under the
+			// account's earlier string-to-key parameters; then the account is re-keyed
+			cl0 := client.NewWithPassword(user, "SIM.TEST", password, cfg, opts...)
+			if e := guard(cl0.Login); e != nil {
+				res.Stats["honest_failed"]++
+				res.Stats["dont_care"]++
+				simrt.Logf("earlier honest login failed: %v", e)
+				residue = "prep-failed"
+				return
+			}
+			sim.DB[user].Rekey("SIM.TEST", tp.Iter, []int{tp.Etype})
+			res.Probes["account-rekeyed-after-an-earlier-login-of-the-process"]++
+		}
 		// preparation over an honest network
 		if tp.Exchange != "as" || tp.Net == "stale" {
 			if e := guard(cl.Login); e != nil {
@@ -436,6 +454,9 @@ func run(tapeJSON json.RawMessage, res *core.Result) {
 		e := expect(tp.Exchange, tp.Etype, p, addrsRequested)
 		if p.Kind == "caddr-added" && dropped {
 			e = "either" // two changes to one field: the list that was extended is dropped again
+		}
+		if p.Kind == "key-of-earlier-s2kparams" && (tp.PriorIter == 0 || tp.Cred != "password" || tp.Exchange != "as") {
+			e = "none" // the account never had other keys (or the reply is not sealed under the account's key): nothing is changed
 		}
 		if p.Kind == "ticket-sname" && sealedSname {
 			// the server name travels twice (sealed reply part, clear-text ticket) and both perturbations
